@@ -40,7 +40,7 @@ VERIF_OBS_DECL(cfg_alg) VERIF_OBS_DECL(key_present) VERIF_OBS_DECL(key_alg) VERI
 /* NOTE: one is_fresh group per requires clause -- a single large conjunction
  * with many nested is_fresh crashes cbmc 6.11 (simplify_inequality). */
 #define REQ_CLAIMS_STATE(jwt) \
-__CPROVER_requires(VJ_IS_OBJECT((jwt)->claims)) \
+__CPROVER_requires(VJ_IS_DOC((jwt)->claims)) \
 __CPROVER_requires(VJ_TRACKED_OK((jwt)->claims, g_vj_len_a)) \
 __CPROVER_requires(__CPROVER_is_fresh((jwt)->checker, sizeof(*(jwt)->checker))) \
 __CPROVER_requires(VJ_IS_OBJECT((jwt)->checker->c.payload)) \
@@ -75,7 +75,7 @@ __CPROVER_requires(!VJ_IS_STR((jwt)->checker->c.payload) ==> g_strcmp_watch == N
 #define DECL_C04_jwt_claim_get(NAME) \
 jwt_value_error_t NAME(jwt_t *jwt, jwt_value_t *value) \
 __CPROVER_requires(__CPROVER_is_fresh(jwt, sizeof(*jwt))) \
-__CPROVER_requires(VJ_IS_OBJECT(jwt->claims)) \
+__CPROVER_requires(VJ_IS_DOC(jwt->claims)) \
 __CPROVER_requires(VJ_TRACKED_OK(jwt->claims, g_vj_len_a)) \
 __CPROVER_requires(KEY_IS_NAME3) \
 __CPROVER_requires(__CPROVER_is_fresh(value, sizeof(*value))) \
